@@ -439,5 +439,24 @@ def rule_h(repo, res):
                 t = norm(i.test)
                 if ("clean_width" in t or "clean_height" in t) and ("frame_width" in t or "frame_height" in t):
                     found2.append("%s:%d" % (m.rel, i.lineno))
+    # field coding: the validator wants an even number of fields per sequence (10.4.3) and an even picture number on the
+    # first field of each frame (12.2); make_sequence takes any picture list and copies caller-given numbers
+    for exc, vmod, key, words, detail in (
+        ("OddNumberOfFieldsInSequence", "decoder.stream", "even-field-count:encoder-counterpart", ("pictures", "% 2"), "the validator rejects a field-coded sequence with an odd number of pictures (OddNumberOfFieldsInSequence, 10.4.3), but make_sequence accepts any picture list: with pictures_are_fields and 1 or 3 pictures it returns a sequence that serialises and is then rejected"),
+        ("EarliestFieldHasOddPictureNumber", "decoder.assertions", "first-field-even-picture-number:encoder-counterpart", ("pic_num", "% 2"), "the validator rejects a first field with an odd picture number (EarliestFieldHasOddPictureNumber, 12.2), but the encoder copies caller-given picture numbers unchecked: pic_num [1, 2] or [4294967295, 0] with pictures_are_fields is accepted, serialised and then rejected"),
+    ):
+        vm_ = repo.mod(vmod)
+        if not [r for r in ast.walk(vm_.tree) if isinstance(r, ast.Raise) and isinstance(r.exc, ast.Call) and dotted(r.exc.func) == exc]:
+            raise AnalysisError("validator no longer raises %s" % exc)
+        hits = []
+        for name, m in sorted(repo.modules.items()):
+            if not name.startswith("vc2_conformance.encoder."):
+                continue
+            for i in ast.walk(m.tree):
+                if isinstance(i, ast.If) and any(isinstance(x, ast.Raise) for x in ast.walk(i)):
+                    t = norm(i.test)
+                    if all(w in t for w in words) or (words[0] in t and ("& 1" in t)):
+                        hits.append("%s:%d" % (m.rel, i.lineno))
+        res.check(bool(hits), "C03.h", key, "vc2_conformance/encoder", detail, by="guarded raise at %s" % ", ".join(hits))
     res.check(bool(found2), "C03.h", "clean-area-within-frame:encoder-counterpart", "vc2_conformance/encoder", "the validator rejects a clean area that does not fit inside the frame (CleanAreaOutOfRange, 11.4.8), but neither the encoder nor read_codec_features_csv tests this: e.g. hd1080p_50 with frame_width/height overridden to 1280x720 and the clean area left at its default (1920x1080) is accepted, and every generated sequence header is rejected by the validator", by="guarded raise at %s" % ", ".join(found2))
     res.check(bool(found), "C03.h", "frame-size-divisibility:encoder-counterpart", "vc2_conformance/encoder", "the validator rejects frame sizes that are not whole multiples of the picture component sizes (decoder/sequence_header.py), but neither the encoder nor read_codec_features_csv tests this: e.g. a 7x4 4:2:2 configuration is accepted, encoded, and the stream is then rejected by the validator", by="guarded raise at %s" % ", ".join(found))
